@@ -247,8 +247,7 @@ def r4_shape_to_spacing(ctx):
         bi, bs = Builder(sp), Builder(sp)
         want = [q_ for q_ in spec.paths(name) if q_.exit == "return"][0].value
         v = p.value
-        while v[0] == "call" and callee(v) in ("builtins.tuple", "builtins.list") and len(v[2]) == 1:
-            v = v[2][0]
+        v = Q.unseq(v)
         tag = "pixel" if pix else "node"
         if v[0] not in ("tuple", "list") or len(v[1]) != 2:
             ctx.add("R4", "%s|formula|%s" % (qn, tag), "UNDECIDED", "result is not a pair: %s" % show(v)[:80], fn=qn)
@@ -286,8 +285,7 @@ def r5_profile(ctx):
             ctx.add("R5", "%s|result|%s" % (qn, tag), "UNDECIDED", "result is not (coordinates, distances)", fn=qn)
             continue
         co, di = v[1]
-        while co[0] == "call" and callee(co) in ("builtins.tuple", "builtins.list") and len(co[2]) == 1:
-            co = co[2][0]
+        co = Q.unseq(co)
         els = co[1] if co[0] in ("tuple", "list") else ()
         res, detail = True, ""
         pairs = [("easting", els[0] if len(els) > 0 else None, wc[1][0]), ("northing", els[1] if len(els) > 1 else None, wc[1][1]), ("distances", di, wd)]
